@@ -44,6 +44,16 @@ class BoomType(TypeError):
         self.tag = tag
 
 
+class BoomFalsy(Exception):
+    """An error whose truth value is False (an exception class that is also a - here empty - collection of details: __len__ == 0)."""
+    def __init__(self, tag):
+        super().__init__(tag)
+        self.tag = tag
+
+    def __len__(self):
+        return 0
+
+
 class BoomStop(StopIteration):
     def __init__(self, tag):
         super().__init__(tag)
@@ -133,7 +143,7 @@ class BoomHuge(Exception):
 
 
 BOOMS = {"Plugin": BoomPlugin, "Unloadable": BoomTwoArgs, "Unpicklable": BoomLock, "Huge": BoomHuge, "Exception": Boom, "ValueError": BoomValue, "AssertionError": BoomAssert, "EOFError": BoomEOF, "TypeError": BoomType,
-         "BrokenPipeError": BoomPipe, "StopIteration": BoomStop}
+         "BrokenPipeError": BoomPipe, "StopIteration": BoomStop, "Falsy": BoomFalsy}
 
 
 class HFilter:
@@ -348,7 +358,7 @@ class C08:
             "consumer": consumer, "items_as": weighted(rng, [("list", 3), ("iter", 1)]),
             # the type of the error the user's filter raises (an assert in user code is an AssertionError ...)
             "exc": weighted(rng, [("Exception", 4), ("ValueError", 2), ("AssertionError", 2), ("EOFError", 1), ("TypeError", 1), ("BrokenPipeError", 1),
-                                  ("StopIteration", 0 if coba_mp else 1.5), ("Unloadable", 1.5), ("Unpicklable", 1.5), ("Huge", 1.5), ("Plugin", 1.5)]),
+                                  ("StopIteration", 0 if coba_mp else 1.5), ("Unloadable", 1.5), ("Unpicklable", 1.5), ("Huge", 1.5), ("Plugin", 1.5), ("Falsy", 1)]),
             "knobs": {"feeder_delay": rng.random() < 0.5, "pipe_cap": weighted(rng, [(None, 4), (1, 1), (3, 1)]),
                       "p_stay": weighted(rng, [(0.0, 2), (0.5, 2), (0.9, 1)]),
                       "slow_main": rng.random() < 0.25, "log_lines": coba_mp and rng.random() < 0.7,
